@@ -2215,6 +2215,918 @@ def run_load_histories(chk, ref, quick):
 
 # ------------------------------------------------------------------ the check
 
+# ------------------------------------------------------------------ round 10: the glue around GPG, object kinds, scalar kinds
+
+
+class GlueGPG(object):
+    """stand-in for gnupg.GPG whose every answer is a parameter of the case (import count, the verdict object) and
+    which records what the verifier did with it"""
+    conf = {"count": 1, "status": "signature valid"}
+    log = []
+
+    def __init__(self, *a, **k):
+        GlueGPG.log.append(("init", a, dict(k)))
+
+    def import_keys(self, key):
+        GlueGPG.log.append(("import", key))
+        r = FakeImport()
+        r.count = GlueGPG.conf["count"]
+        return r
+
+    def verify_data(self, fn, data):
+        try:
+            with open(fn, "rb") as f:
+                sig = f.read()
+        except Exception as e:
+            sig = None
+        GlueGPG.log.append(("verify", fn, sig, bytes(data)))
+        r = FakeVerified(sig is not None and sig.startswith(b"FAKESIG:") and sig[8:] == binascii.hexlify(bytes(data)))
+        # as gnupg does: 'signature valid' goes with valid; an invalid verdict comes with any other text (GOODSIG of an expired
+        # key is 'signature good' with valid = False): the text is not the verdict
+        r.status = "signature valid" if r.valid else GlueGPG.conf["status"]
+        return r
+
+
+class GlueModule(object):
+    GPG = GlueGPG
+
+
+def glue_call(entry, obj, doc_bytes, key, count, status):
+    """verify / verify_play with the parameterised GPG -> (answer, problems of the glue)"""
+    from insights.client.constants import InsightsConstants as _c
+    GlueGPG.conf = {"count": count, "status": status}
+    del GlueGPG.log[:]
+    saved = pv.gnupg, pv.pkgutil, pv.PUBLIC_KEY_PATH
+    pv.gnupg, pv.pkgutil, pv.PUBLIC_KEY_PATH = GlueModule, FakePkgutil(saved[1], doc_bytes), key
+    try:
+        if entry == "verify":
+            r = pv.verify(obj)
+            ans = "ok" if r is obj else "returned-other-object"
+        else:
+            res, d = pv.verify_play(obj)
+            ans = ("valid\t" if res else "invalid\t") + binascii.hexlify(bytes(d)).decode()
+            if bool(res) != bool(getattr(res, "valid", None)):
+                ans = "verdict-object-inconsistent"
+    except pv.PlaybookVerificationError as e:
+        ans = "verr"
+        if not isinstance(getattr(e, "message", None), str) or str(e) != e.message:
+            ans = "verr-without-message"
+    except Exception as e:
+        ans = "crash"
+    finally:
+        pv.gnupg, pv.pkgutil, pv.PUBLIC_KEY_PATH = saved
+    problems = []
+    log = list(GlueGPG.log)
+    verifies = [x for x in log if x[0] == "verify"]
+    for i, x in enumerate(log):
+        if x[0] == "init" and x[2].get("gnupghome") != _c.insights_core_lib_dir:
+            problems.append("GPG started with gnupghome=%r instead of the client's own directory" % (x[2].get("gnupghome"),))
+        if x[0] == "verify":
+            before = [y for y in log[:i] if y[0] == "import"]
+            if not before or before[-1][1] != key:
+                problems.append("GPG asked to verify without the shipped public key having been imported")
+            if x[2] is None:
+                problems.append("the signature file shown to GPG does not exist")
+            if os.path.exists(x[1]):
+                problems.append("the signature file %s was left behind" % x[1])
+                try:
+                    os.unlink(x[1])
+                except OSError:
+                    pass
+    return ans, problems, verifies
+
+
+def gluek_line(line, present, count, doc_mode="good"):
+    f = line.split("\t")
+    dm = {"good": "good", "entry-scalar": "notmapping"}.get(doc_mode, "unloadable")
+    return "\t".join(["verifyd", dm, "1" if present else "0", str(count)] + f[1:])
+
+
+def glue_case(rng, kind=None):
+    """a signed play (or a tampered / unsigned one) + a revocation document + the GPG parameters"""
+    p = gen_signed_play(rng)
+    if p is None:
+        return None
+    ans, digest, raw = impl_excl(to_ruamel(p))
+    if digest is None:
+        return None
+    texts = {binascii.hexlify(digest).decode(): raw.decode("utf-8")}
+    p["vars"][SIG] = fake_sign(digest)
+    what = kind or rng.choice(["genuine"] * 5 + ["tampered", "badsig", "revoked", "empty", "notb64"])
+    q = p
+    if what == "tampered":
+        for _ in range(12):
+            k, q2 = one_edit(rng, p)
+            if isinstance(q2, dict) and spec_core(q2)[0] == "core" and spec_core(q2) != spec_core(p) and \
+                    isinstance(q2.get("vars"), dict) and q2["vars"].get(SIG) == p["vars"][SIG]:
+                q = q2
+                break
+        else:
+            what = "genuine"
+    elif what == "badsig":
+        q = copy.deepcopy(p)
+        q["vars"][SIG] = fake_sign(b"\1" * 32)
+    elif what == "notb64":
+        q = copy.deepcopy(p)
+        q["vars"][SIG] = rng.choice(["a", "abc", "!!!!a", "YQ=", "é"])
+    elif what == "empty":
+        q = {}
+    if q is not p and q:
+        a2, d2, raw2 = impl_excl(to_ruamel(q))
+        if d2 is not None:
+            texts[binascii.hexlify(d2).decode()] = raw2.decode("utf-8")
+    rdoc = {"name": "revocation list", "timestamp": 1632510092, "vars": {EXCL: "/vars/insights_signature", SIG: "UExBQ0VIT0xERVI="},
+            "revoked_playbooks": [{"name": "x", "hash": hashlib.sha256(b"other").hexdigest()}]}
+    if what == "revoked":
+        rdoc["revoked_playbooks"].append({"name": "r", "hash": binascii.hexlify(digest).decode()})
+    _, rd, rraw = impl_excl(to_ruamel(rdoc))
+    if rd is None:
+        return None
+    rdoc["vars"][SIG] = fake_sign(rd)
+    texts[binascii.hexlify(rd).decode()] = rraw.decode("utf-8")
+    doc_mode = rng.choice(["good"] * 8 + ["unloadable", "not-a-list", "empty-doc", "entry-scalar"])
+    if doc_mode == "good":
+        doc_bytes = dump_yaml([to_ruamel(rdoc)]).encode("utf-8")
+    else:
+        doc_bytes = {"unloadable": b"- name: [unclosed\n  vars: {", "not-a-list": b"name: x\n", "empty-doc": b"", "entry-scalar": b"- a\n- b\n"}[doc_mode]
+    key = rng.choice(["key", "key", "key", "key", "key", None, b""])
+    count = rng.choice([1, 1, 1, 1, 2, 3, 0, 0, -1])
+    status = rng.choice(["signature good", "signature bad", "no public key", None, "signature error", "signature good"])
+    return {"op": "glue", "what": what, "play": to_json(q), "doc": doc_bytes.decode("utf-8"), "doc_mode": doc_mode,
+            "rdoc": to_json(rdoc), "texts": texts, "key": "key" if key == "key" else ("none" if key is None else "empty"),
+            "count": count, "status": status, "entry": rng.choice(["verify", "verify", "verify_play"])}
+
+
+def glue_eval(c):
+    """run one glue case -> (implementation answer, model request line, oracle failures)"""
+    q, rplain = from_json(c["play"]), from_json(c["rdoc"])
+    key = {"key": GlueGPG.real_key, "none": None, "empty": b""}[c["key"]]
+    present = c["key"] == "key"
+    key_ok = present and c["count"] >= 1
+    ans, problems, verifies = glue_call(c["entry"], to_ruamel(q), c["doc"].encode("utf-8"), key, c["count"], c["status"])
+    fails = list(problems)
+    line = model_verify_line(q, rplain, c["texts"])
+    if c["entry"] == "verify":
+        mline = gluek_line(line, present, c["count"], c["doc_mode"])
+        if ans == "ok" and not key_ok:
+            fails.append("verify() accepted a play although the public key was not imported (key file %s, import count %d)" % (c["key"], c["count"]))
+        if ans == "ok" and c["doc_mode"] != "good":
+            fails.append("verify() accepted a play although the revocation list could not be loaded (%s)" % c["doc_mode"])
+        if ans == "ok" and c["what"] != "genuine":
+            fails.append("verify() accepted a %s play" % c["what"])
+        if ans not in ("ok", "verr", "crash"):
+            fails.append("verify() ended as %s" % ans)
+        if c["what"] == "empty" and ans != "verr":
+            fails.append("verify() of an empty play ended as %s instead of a verification error" % ans)
+    else:
+        f = line.split("\t")
+        mline = "\t".join(["vplayk", "1" if present else "0", str(c["count"]), f[1], f[2], f[5]]) if q else None
+        if ans.startswith("valid") and (not key_ok or c["what"] in ("tampered", "badsig")):
+            fails.append("verify_play reports a valid signature for a %s play (key file %s, import count %d)" % (c["what"], c["key"], c["count"]))
+    for v in verifies:
+        sigs = []
+        for d in (q, rplain):
+            s_ = d.get("vars", {}).get(SIG) if isinstance(d, dict) and isinstance(d.get("vars"), dict) else None
+            if isinstance(s_, str):
+                try:
+                    sigs.append(base64.b64decode(s_))
+                except Exception:
+                    pass
+        if v[2] is not None and v[2] not in sigs:
+            fails.append("the signature file shown to GPG (%r...) is not the decoded signature of the play" % (v[2][:24],))
+        if binascii.hexlify(v[3]).decode() not in c["texts"]:
+            fails.append("GPG was shown %s, which is not the SHA-256 digest of the cleaned play" % binascii.hexlify(v[3]).decode()[:16])
+    return ans, mline, fails
+
+
+def glue_model_answer(c, out):
+    if out is None:
+        return "no-model-line"
+    f = out.split("\t")
+    if f[0] in ("valid", "invalid"):
+        return f[0] + "\t" + hashlib.sha256(dec(f[1]).encode("utf-8")).hexdigest()
+    return out
+
+
+def run_glue(chk, quick):
+    rng = chk.rng
+    GlueGPG.real_key = pv.PUBLIC_KEY_PATH
+    n = 260 if quick else 4000
+    cases, impl, mlines = [], [], []
+    for i in range(n):
+        c = glue_case(rng)
+        if c is None:
+            continue
+        if c["entry"] == "verify_play" and not from_json(c["play"]):
+            continue
+        ans, mline, fails = glue_eval(c)
+        chk.case(("glue", c["entry"], c["what"], c["key"], c["count"], c["doc_mode"], canon(from_json(c["play"]))), ans in ("ok",) or ans.startswith("valid"))
+        chk.count("glue:%s/%s/key=%s,count=%s,doc=%s -> %s" % (c["entry"], c["what"], c["key"], "ok" if c["count"] >= 1 else c["count"], c["doc_mode"], ans.split("\t")[0]))
+        for f in fails[:1]:
+            chk.failure("GPG glue: " + f, c)
+        cases.append({"what": c["what"], "entry": c["entry"], "key": c["key"], "count": c["count"], "doc": c["doc_mode"], "play": c["play"]})
+        impl.append(ans)
+        mlines.append(mline)
+    out = run_driver("C18", [l for l in mlines if l is not None])
+    it = iter(out)
+    model = [glue_model_answer(c, next(it) if l is not None else None) for c, l in zip(cases, mlines)]
+    chk.compare("GPG glue: verify / verify_play with key file, import count, verdict object and revocation text as parameters = the model's verifyDoc / verifyPlayFullK", cases, impl, model)
+    if cases:
+        chk.sample({"glue": dict((k, v) for k, v in cases[0].items() if k != "play"), "impl": impl[0]})
+
+
+# ---- object kinds: the same play as CommentedMap / dict / OrderedDict / subclasses, scalars as the loader's own subclasses
+
+class _SubDict(dict):
+    pass
+
+
+class _SubList(list):
+    pass
+
+
+def to_kind(o, kind):
+    from insights.client.apps.ansible.playbook_verifier.contrib.ruamel_yaml.ruamel.yaml import scalarstring as _ss, scalarint as _si
+    if isinstance(o, dict):
+        items = [(to_kind(k, kind) if kind == "loader-scalars" else k, to_kind(v, kind)) for k, v in o.items()]
+        if kind in ("ruamel", "loader-scalars"):
+            m = CommentedMap()
+            for k, v in items:
+                m[k] = v
+            return m
+        if kind == "ordered":
+            return collections.OrderedDict(items)
+        if kind == "subclass":
+            return _SubDict(items)
+        return dict(items)
+    if isinstance(o, list):
+        xs = [to_kind(v, kind) for v in o]
+        if kind in ("ruamel", "loader-scalars"):
+            s = CommentedSeq()
+            s.extend(xs)
+            return s
+        if kind == "subclass":
+            return _SubList(xs)
+        if kind == "tuple-free-plain":
+            return list(xs)
+        return xs
+    if kind == "loader-scalars":
+        if isinstance(o, bool) or o is None:
+            return o
+        if isinstance(o, int):
+            return [_si.ScalarInt, _si.HexInt, _si.OctalInt, _si.HexCapsInt, _si.BinaryInt, int][abs(o) % 6](o)
+        if isinstance(o, str):
+            return [_ss.SingleQuotedScalarString, _ss.DoubleQuotedScalarString, _ss.LiteralScalarString, _ss.FoldedScalarString,
+                    _ss.PlainScalarString, str][len(o) % 6](o)
+    return o
+
+
+KINDS = ["ruamel", "plain", "ordered", "subclass", "loader-scalars"]
+
+
+def kinds_eval(p):
+    """answers of exclusion+digest and of verify_play for every object kind of one plain play"""
+    res = {}
+    for kind in KINDS:
+        obj = to_kind(p, kind)
+        a1, d1, raw = impl_excl(obj)
+        a2, d2 = impl_vplay(obj)
+        same = None
+        try:
+            same = canon(from_ruamel(obj)) == canon(p)
+        except Exception:
+            same = False
+        res[kind] = (a1, a2 if a2 != "ok" else "ok\t" + binascii.hexlify(d2).decode(), same)
+    return res
+
+
+def kinds_failures(p, res):
+    fails = []
+    ref = res["ruamel"]
+    for kind in KINDS:
+        if not res[kind][2]:
+            fails.append("the play given as %s objects was modified by the verifier" % kind)
+        if res[kind][:2] != ref[:2]:
+            fails.append("the same play given as %s objects and as the loader's mappings / sequences: exclusion+digest %s vs %s, verify_play %s vs %s"
+                         % (kind, res[kind][0][:40], ref[0][:40], res[kind][1][:24], ref[1][:24]))
+    return fails
+
+
+def run_kinds(chk, quick):
+    rng = chk.rng
+    n = 110 if quick else 2500
+    plays = []
+    for _ in range(n):
+        p = gen_play(rng) if rng.random() < 0.4 else gen_signed_play(rng)
+        if p is None:
+            continue
+        plays.append(p)
+        if rng.random() < 0.5:
+            k, q = one_edit(rng, p)
+            if isinstance(q, dict):
+                plays.append(q)
+    cases, impl, lines = [], [], []
+    for p in plays:
+        res = kinds_eval(p)
+        for f in kinds_failures(p, res)[:1]:
+            chk.failure("object kinds: " + f, {"op": "kinds", "play": to_json(p)})
+        chk.case(("kinds", canon(p)), res["ruamel"][0].startswith("ok"))
+        for kind in KINDS[1:]:
+            cases.append({"kind": kind, "play": to_json(p)})
+            impl.append(res[kind][0] + ";" + res[kind][1])
+            chk.count("kinds:%s/%s" % (kind, res[kind][0].split("\t")[0]))
+        lines.append("ev\t%s\t%s" % (bad_sigs(p), wire(p)))
+    out = run_driver("C18", lines)
+    model = []
+    for b in out:
+        e, v = (b.split(";") + [b])[:2] if ";" in b else (b, b)
+        f = v.split("\t")
+        v = "ok\t" + hashlib.sha256(dec(f[1]).encode("utf-8")).hexdigest() if f[0] == "ok" else v
+        model += [e + ";" + v] * (len(KINDS) - 1)
+    chk.compare("object kinds: dict / OrderedDict / subclasses / the loader's scalar classes = the model on the plain play", cases, impl, model)
+
+
+# ---- scalar kinds: every scalar the verifier's loader can produce, inside and outside the model
+
+# (spelling in YAML, value identity).  identity ("m", plain value): inside the model; the digest must be the model's.
+# other identities: outside the model (floats, dates, binaries, sets, ordered maps): different identities must give
+# different digests, and the token the serializer prints for a float must read back as that float and not as an integer.
+SCALAR_TABLE = [
+    ("0x1F", ("m", 31)), ("0o17", ("m", 15)), ("017", ("m", 17)), ("+12", ("m", 12)), ("1_000", ("m", 1000)), ("-0", ("m", 0)),
+    ("0b101", ("m", 5)), ("31", ("m", 31)), ("'31'", ("m", "31")), ("yes", ("m", "yes")), ("True", ("m", True)), ("TRUE", ("m", True)),
+    ("true", ("m", True)), ("false", ("m", False)), ("'true'", ("m", "true")), ("~", ("m", None)), ("null", ("m", None)), ("Null", ("m", None)),
+    ("'null'", ("m", "null")), ("''", ("m", "")), ("'a'", ("m", "a")), ('"a\\tb"', ("m", "a\tb")), ('"a\\\\tb"', ("m", "a\\tb")),
+    ("1:30", ("m", "1:30")), ("!!str 7", ("m", "7")), ("!!int '7'", ("m", 7)), ("7", ("m", 7)), ("'1.0'", ("m", "1.0")),
+    ("'2001-12-14'", ("m", "2001-12-14")), ("'inf'", ("m", "inf")), ("nan", ("m", "nan")), ("inf", ("m", "inf")), ("1e3x", ("m", "1e3x")),
+    ("1.0", ("f", 1.0)), ("1.00", ("f", 1.0)), ("1.", ("f", 1.0)), ("1", ("m", 1)), ("1e3", ("f", 1000.0)), ("1000.0", ("f", 1000.0)),
+    ("1000", ("m", 1000)), ("1.5e-7", ("f", 1.5e-07)), ("1.5e-8", ("f", 1.5e-08)), (".inf", ("f", float("inf"))), ("-.inf", ("f", float("-inf"))),
+    (".nan", ("f", "nan")), ("-0.0", ("f", -0.0)), ("0.0", ("f", 0.0)), ("0", ("m", 0)), ("1.0e+20", ("f", 1e20)), ("1.0e+21", ("f", 1e21)),
+    ("123456789.123456789", ("f", 123456789.123456789)), ("123456789.12345", ("f", 123456789.12345)), ("123456789.0", ("f", 123456789.0)),
+    ("123456789", ("m", 123456789)), ("+.5", ("f", 0.5)), ("685230.15", ("f", 685230.15)), ("6.8523015e+5", ("f", 685230.15)),
+    ("0.1", ("f", 0.1)), ("0.10000000000000002", ("f", 0.10000000000000002)), ("1e400", ("f", float("inf"))), ("2.5", ("f", 2.5)), ("3.0", ("f", 3.0)),
+    ("3", ("m", 3)), ("1e16", ("f", 1e16)), ("10000000000000000", ("m", 10 ** 16)), ("1e22", ("f", 1e22)), ("1.2345678e+8", ("f", 123456780.0)),
+    ("123456789.5", ("f", 123456789.5)), ("123457000.0", ("f", 123457000.0)),
+    ("2001-12-14", ("d", "2001-12-14")), ("2001-12-15", ("d", "2001-12-15")), ("!!timestamp 2001-12-14", ("d", "2001-12-14")),
+    ("2001-12-14 21:59:43", ("t", "2001-12-14 21:59:43")), ("2001-12-14t21:59:43", ("t", "2001-12-14 21:59:43")),
+    ("2001-12-14 21:59:44", ("t", "2001-12-14 21:59:44")), ("2001-12-14 21:59:43.10", ("t", "2001-12-14 21:59:43.1")),
+    ("2001-12-14 00:00:00", ("t", "2001-12-14 00:00:00")), ("2001-12-14 21:59:43 +05:00", ("t", "2001-12-14 16:59:43")),
+    ("2001-12-14 16:59:43", ("t", "2001-12-14 16:59:43")), ("2001-12-15 00:00:00", ("t", "2001-12-15 00:00:00")),
+    ("!!binary aGVsbG8=", ("b", b"hello")), ("!!binary aGVsbG9v", ("b", b"helloo")), ("!!binary aGVsbG8n", ("b", b"hello'")),
+    ("\"b'hello'\"", ("m", "b'hello'")),
+    ("!!set {a, b}", ("s", ("a", "b"))), ("!!set {a}", ("s", ("a",))), ("!!set {b, a}", ("s", ("b", "a"))), ("!!set {\"a', 'b\"}", ("s", ("a', 'b",))),
+    ("!!omap [a: 1, b: 2]", ("o", (("a", 1), ("b", 2)))), ("!!omap [b: 2, a: 1]", ("o", (("b", 2), ("a", 1)))), ("!!omap [a: 1]", ("o", (("a", 1),))),
+]
+SCALAR_PLACES = [
+    ("value", "    - x: %s\n"), ("item", "    - [k, %s, k]\n"), ("last-item", "    - [%s]\n"), ("nested", "    - x: {y: [%s]}\n"), ("key", "    - {%s: v}\n"),
+]
+SCALAR_HEAD = ("- name: k\n  hosts: all\n  vars:\n    insights_signature_exclude: /hosts,/vars/insights_signature\n"
+               "    insights_signature: UExBQ0VIT0xERVI=\n  tasks:\n")
+
+
+def scalar_text(spelling, place):
+    return SCALAR_HEAD + dict(SCALAR_PLACES)[place] % spelling
+
+
+def scalar_plain(ident, place):
+    v = ident[1]
+    t = {"value": {"x": v}, "item": ["k", v, "k"], "last-item": [v], "nested": {"x": {"y": [v]}}, "key": {v: "v"}}[place]
+    return {"name": "k", "hosts": "all", "vars": {EXCL: "/hosts,/vars/insights_signature", SIG: "UExBQ0VIT0xERVI="}, "tasks": [t]}
+
+
+def scalar_outcome(text):
+    """digest of the play a text loads as (through load_playbook_yaml, exclusion, serialize_play, hash_play)"""
+    try:
+        plays = pv.load_playbook_yaml(text)
+    except pv.PlaybookVerificationError:
+        return "load-verr", None
+    except Exception as e:
+        return "load-crash:" + type(e).__name__, None
+    if not isinstance(plays, list) or len(plays) != 1:
+        return "not-one-play", None
+    a, d, raw = impl_excl(plays[0])
+    return (a.split("\t")[0], raw)
+
+
+def float_token_problem(spelling, ident):
+    """the token printed for a float must read back as exactly that float and must not be an integer's token"""
+    try:
+        v = pv.load_playbook_yaml("- x: %s\n" % spelling)[0]["x"]
+        tok = PlaybookSerializer.serialize(v)
+    except Exception as e:
+        return "serialising the float raised %s" % type(e).__name__
+    if not isinstance(tok, str):
+        return "the serializer returned %s" % type(tok).__name__
+    if re.match(r"^[-+]?[0-9]+$", tok):
+        return "the float is printed as %r, the token of an integer" % tok
+    try:
+        back = float(tok)
+    except ValueError:
+        return "the float is printed as %r, which does not read back as a number" % tok
+    want = ident[1]
+    if want == "nan":
+        return None if back != back else "nan is printed as %r" % tok
+    import math
+    if back != want or math.copysign(1.0, back) != math.copysign(1.0, want):
+        return "the float %r is printed as %r, which reads back as %r" % (want, tok, back)
+    return None
+
+
+def scalar_pair_check(sp_a, id_a, sp_b, id_b, place):
+    """-> failure text or None: two spellings of different values must not share a digest"""
+    oa, ob = scalar_outcome(scalar_text(sp_a, place)), scalar_outcome(scalar_text(sp_b, place))
+    if oa[0] != "ok" or ob[0] != "ok":
+        return None
+    if id_a != id_b and oa[1] == ob[1]:
+        return "%s and %s (as %s) denote different values but the signed text is the same: %r" % (sp_a, sp_b, place, oa[1][-60:])
+    return None
+
+
+def run_scalars(chk, quick):
+    rng = chk.rng
+    table = list(SCALAR_TABLE)
+    # random floats and integers around them, spelled by Python
+    for _ in range(25 if quick else 400):
+        f = rng.choice([rng.random(), rng.uniform(-1e6, 1e6), rng.uniform(-1, 1) * 10 ** rng.randrange(-30, 30), float(rng.randrange(-10 ** 6, 10 ** 6)),
+                        rng.randrange(1, 10 ** 6) / 1000.0])
+        sp = repr(f)
+        if re.match(r"^-?[0-9]+\.[0-9]+(e[-+][0-9]+)?$", sp):       # YAML 1.2 float spellings only
+            table.append((sp, ("f", f)))
+            if f == int(f) and abs(f) < 1e15:
+                table.append((str(int(f)), ("m", int(f))))
+    cases, impl, lines = [], [], []
+    by_place = {}
+    for sp, ident in table:
+        if ident[0] == "f":
+            prob = float_token_problem(sp, ident)
+            chk.count("scalars:float-token/" + ("ok" if prob is None else "bad"))
+            if prob:
+                chk.failure("scalar kinds: " + prob, {"op": "scalar-float", "spelling": sp, "value": repr(ident[1])})
+        for place, _ in SCALAR_PLACES:
+            if place == "key" and ident[0] in ("s", "o"):
+                continue
+            text = scalar_text(sp, place)
+            o = scalar_outcome(text)
+            chk.case(("scalar", sp, place), o[0] == "ok")
+            chk.count("scalars:%s/%s/%s" % (ident[0], place, o[0]))
+            if o[0] not in ("ok", "load-verr", "verr"):
+                chk.failure("scalar kinds: the play with %s as %s ended as %s" % (sp, place, o[0]), {"op": "scalar-one", "spelling": sp, "place": place})
+                continue
+            if o[0] != "ok":
+                if ident[0] == "m":
+                    cases.append({"spelling": sp, "place": place})
+                    impl.append(o[0])
+                    lines.append("excl\t" + wire(scalar_plain(ident, place)))
+                continue
+            by_place.setdefault(place, []).append((sp, ident, o[1]))
+            if ident[0] == "m":
+                cases.append({"spelling": sp, "place": place})
+                impl.append("ok\t" + enc(o[1].decode("utf-8", "replace")))
+                lines.append("excl\t" + wire(scalar_plain(ident, place)))
+    for place, rows in by_place.items():
+        seen = {}
+        for sp, ident, raw in rows:
+            other = seen.get(raw)
+            if other is None:
+                seen[raw] = (sp, ident)
+            elif other[1] != ident:
+                chk.failure("scalar kinds: %s and %s (as %s) denote different values but the signed text is the same: %r"
+                            % (other[0], sp, place, raw[-60:]),
+                            {"op": "scalar-pair", "a": other[0], "b": sp, "ida": repr(other[1]), "idb": repr(ident), "place": place})
+    out = run_driver("C18", lines)
+    chk.compare("scalar kinds: every spelling of an integer, boolean, null or string the loader accepts = the model on the denoted value", cases, impl, out)
+
+
+# ---- the command-line entry point as a whole: SKIP_VERIFY, empty / unloadable input, documents that are not a list of plays
+
+def run_main_env(text, doc_bytes, skip_value):
+    """like run_main, with SKIP_VERIFY set to skip_value (None = unset)"""
+    old = os.environ.get("SKIP_VERIFY")
+    import runpy
+    saved = sys.stdin, sys.stdout, sys.stderr
+    if skip_value is None:
+        os.environ.pop("SKIP_VERIFY", None)
+    else:
+        os.environ["SKIP_VERIFY"] = skip_value
+    sys.stdin, sys.stdout, sys.stderr = io.StringIO(text), io.StringIO(), io.StringIO()
+    code, crashed = 0, False
+    try:
+        with Patched(doc_bytes):
+            runpy.run_module(VLOG, run_name="__main__")
+    except SystemExit as e:
+        code = e.code if isinstance(e.code, int) else (0 if e.code is None else 1)
+    except BaseException:
+        code, crashed = 1, True
+    finally:
+        out, err = sys.stdout.getvalue(), sys.stderr.getvalue()
+        sys.stdin, sys.stdout, sys.stderr = saved
+        if old is None:
+            os.environ.pop("SKIP_VERIFY", None)
+        else:
+            os.environ["SKIP_VERIFY"] = old
+    printed = "printed" if out == text + "\n" else "silent" if out == "" else "printed-something-else"
+    ex = "traceback" if crashed else "exit0" if code == 0 else "exitbad" if code == 101 else "exit-%s" % code
+    return ex + "\t" + printed, err
+
+
+def main2_case(rng):
+    g = gen_signed_play(rng)
+    if g is None:
+        return None
+    _, digest, raw = impl_excl(to_ruamel(g))
+    if digest is None:
+        return None
+    g["vars"][SIG] = fake_sign(digest)
+    texts = {binascii.hexlify(digest).decode(): raw.decode("utf-8")}
+    rdoc = {"name": "revocation list", "timestamp": 1632510092, "vars": {EXCL: "/vars/insights_signature", SIG: "UExBQ0VIT0xERVI="},
+            "revoked_playbooks": []}
+    _, rd, rraw = impl_excl(to_ruamel(rdoc))
+    rdoc["vars"][SIG] = fake_sign(rd)
+    texts[binascii.hexlify(rd).decode()] = rraw.decode("utf-8")
+    u = copy.deepcopy(g)
+    del u["vars"][SIG]
+    shape = rng.choice(["good", "good2", "good-unsigned", "unsigned-good", "empty-text", "empty-list", "mapping", "scalar", "unloadable",
+                        "list-of-scalars", "good-scalar", "empty-entry", "null-doc", "good-empty-entry"])
+    try:
+        gt = dump_yaml([to_ruamel(g)])
+        ut = dump_yaml([to_ruamel(u)])
+        d = denote(gt)
+        if d[0] != "ok" or [canon(x) for x in d[1]] != [canon(g)]:
+            return None
+    except Exception:
+        return None
+    dy = lambda xs: dump_yaml(to_ruamel(copy.deepcopy(xs)))
+    try:
+        text, entries, load = {
+            "good": (gt, [g], "loaded"), "good2": (dy([g, g]), [g, g], "loaded"), "good-unsigned": (dy([g, u]), [g, u], "loaded"),
+            "unsigned-good": (dy([u, g]), [u, g], "loaded"), "empty-text": ("", [], "loaderr"), "empty-list": ("[]\n", [], "loaded"),
+            "mapping": ("name: x\nhosts: all\n", ["name", "hosts"], "loaded"), "scalar": ("5\n", None, "loaded"),
+            "unloadable": ("- name: [x\n", [], "loaderr"), "list-of-scalars": ("- a\n- b\n", ["a", "b"], "loaded"),
+            "good-scalar": (dy([g, "a"]), [g, "a"], "loaded"), "empty-entry": ("- {}\n", [{}], "loaded"), "null-doc": ("~\n", None, "loaded"),
+            "good-empty-entry": (dy([g, {}]), [g, {}], "loaded"),
+        }[shape]
+        if load == "loaded" and entries and isinstance(entries[0], dict) and entries[0]:
+            d = denote(text)
+            if d[0] != "ok" or [canon(x) for x in d[1]] != [canon(x) for x in entries]:
+                return None
+    except Exception:
+        return None
+    skip = rng.choice([None, None, None, "", "1", "0", "yes"])
+    return {"op": "main2", "shape": shape, "text": text, "entries": None if entries is None else [to_json(e) for e in entries], "load": load,
+            "skip": skip, "doc": dump_yaml([to_ruamel(rdoc)]), "rdoc": to_json(rdoc), "texts": texts}
+
+
+def main2_eval(c):
+    ans, err = run_main_env(c["text"], c["doc"].encode("utf-8"), c["skip"])
+    skipping = bool(c["skip"])
+    fails = []
+    ents = None if c["entries"] is None else [from_json(e) for e in c["entries"]]
+    all_good = c["load"] == "loaded" and ents is not None and all(isinstance(e, dict) and e and SIG in (e.get("vars") or {}) for e in ents)
+    ex, printed = ans.split("\t")
+    if not skipping:
+        if printed != "silent" and not all_good:
+            fails.append("the playbook was printed for Ansible although not every entry verified (document shape %s)" % c["shape"])
+        if (ex == "exit0") != (printed == "printed"):
+            fails.append("exit status and output disagree: %s / %s (document shape %s)" % (ex, printed, c["shape"]))
+        if all_good and ans != "exit0\tprinted":
+            fails.append("a document whose entries all verify ended as %s" % ans.replace("\t", " / "))
+        if ex == "exitbad" and not err.strip():
+            fails.append("rejected without a message on stderr")
+    elif ans != "exit0\tprinted":
+        fails.append("SKIP_VERIFY=%r: ended as %s" % (c["skip"], ans.replace("\t", " / ")))
+    return ans, fails
+
+
+def run_main2(chk, quick):
+    rng = chk.rng
+    n = 45 if quick else 800
+    cs, impl, vlines, owners = [], [], [], []
+    for _ in range(n):
+        c = main2_case(rng)
+        if c is None:
+            continue
+        ans, fails = main2_eval(c)
+        chk.case(("main2", c["shape"], c["skip"], c["text"]), ans == "exit0\tprinted")
+        chk.count("main2:%s/skip=%r -> %s" % (c["shape"], c["skip"], ans.replace("\t", "/")))
+        for f in fails[:1]:
+            chk.failure("command-line entry point: " + f, c)
+        rplain = from_json(c["rdoc"])
+        toks = []
+        if c["entries"] is not None:
+            for e in c["entries"]:
+                e = from_json(e)
+                if isinstance(e, dict):
+                    toks.append(len(vlines))
+                    vlines.append(model_verify_line(e, rplain, c["texts"]))
+                else:
+                    toks.append("notmap")
+        cs.append(c)
+        impl.append(ans)
+        owners.append(toks)
+    vout = run_driver("C18", vlines) if vlines else []
+    mlines = []
+    for c, toks in zip(cs, owners):
+        if c["entries"] is None:
+            mlines.append(None)          # a document that is a scalar / null: the `for` itself raises
+            continue
+        es = ",".join(t if t == "notmap" else vout[t] for t in toks) or "-"
+        mlines.append("main\t%s\t%s\t%s" % ("1" if c["skip"] else "0", c["load"], es))
+    mout = run_driver("C18", [l for l in mlines if l is not None])
+    it = iter(mout)
+    model = []
+    for c, l in zip(cs, mlines):
+        if l is None:
+            model.append("exit0\tprinted" if c["skip"] else "traceback\tsilent")
+        else:
+            model.append(next(it))
+    chk.compare("command-line entry point as a whole (SKIP_VERIFY, empty / unloadable input, documents that are not a list of plays) = the model's mainRun",
+                [{"shape": c["shape"], "skip": c["skip"], "text": c["text"]} for c in cs], impl, model)
+
+
+# ---- real signatures: the playbooks Red Hat signed that ship with the repo, through the real gnupg glue and the gpg binary
+
+REAL_DIR = os.path.join("insights", "tests", "client", "apps", "playbooks")
+
+
+def _repo_root():
+    return os.path.dirname(os.path.dirname(os.path.abspath(sys.modules["insights"].__file__)))
+
+
+def real_sources():
+    """[(label, text)] of really signed plays: the shipped revocation list and the repo's example playbooks"""
+    out = []
+    try:
+        out.append(("revocation-list", pv.pkgutil.get_data("insights", "revoked_playbooks.yaml").decode("utf-8")))
+    except Exception:
+        pass
+    d = os.path.join(_repo_root(), REAL_DIR)
+    if os.path.isdir(d):
+        for fn in sorted(os.listdir(d)):
+            if fn.endswith(".yml"):
+                with io.open(os.path.join(d, fn), encoding="utf-8") as f:
+                    out.append((fn, f.read()))
+    return out
+
+
+class RealGPGHome(object):
+    """a scratch GnuPG home instead of /var/lib/insights for the time of the calls"""
+
+    def __enter__(self):
+        import tempfile
+        from insights.client.constants import InsightsConstants as _c
+        self.c, self.old, self.home = _c, _c.insights_core_lib_dir, tempfile.mkdtemp(prefix="c18gpg")
+        _c.insights_core_lib_dir = self.home
+        return self
+
+    def __exit__(self, *a):
+        import shutil
+        self.c.insights_core_lib_dir = self.old
+        shutil.rmtree(self.home, ignore_errors=True)
+
+
+def leaf_paths(o, pre=()):
+    out = []
+    if isinstance(o, dict):
+        for k, v in o.items():
+            out += leaf_paths(v, pre + (k,))
+    elif isinstance(o, list):
+        for i, v in enumerate(o):
+            out += leaf_paths(v, pre + (i,))
+    else:
+        out.append(pre)
+    return out
+
+
+def real_excluded(play, path):
+    try:
+        s_ = play["vars"][EXCL]
+    except Exception:
+        return False
+    for el in str(s_).split(","):
+        comps = [x for x in el.split("/") if x]
+        if comps and list(path[:len(comps)]) == comps:
+            return True
+    return False
+
+
+def real_apply(play, edit):
+    """apply an edit descriptor to a freshly loaded play; returns False when it does not apply"""
+    path = edit["path"]
+    try:
+        parent = play
+        for k in path[:-1]:
+            parent = parent[k]
+        last = path[-1]
+        if edit["kind"] == "set":
+            if parent[last] == edit["new"] and type(parent[last]) is type(edit["new"]):
+                return False
+            parent[last] = edit["new"]
+        elif edit["kind"] == "delete":
+            del parent[last]
+        elif edit["kind"] == "swap":
+            a, b = parent[last], parent[last + 1]
+            if dump_yaml([a]) == dump_yaml([b]):
+                return False
+            parent[last], parent[last + 1] = b, a
+        elif edit["kind"] == "key-to-end":
+            if list(parent.keys())[-1] == last:
+                return False
+            parent.move_to_end(last)
+        else:
+            return False
+    except Exception:
+        return False
+    return True
+
+
+def real_edit(rng, play):
+    """a single edit outside / inside the excluded elements of a really signed play -> (descriptor, inside_excluded)"""
+    paths = [p for p in leaf_paths(play) if list(p[:2]) not in (["vars", SIG], ["vars", EXCL])]
+    if not paths:
+        return None
+    path = rng.choice(paths)
+    v = play
+    for k in path:
+        v = v[k]
+    kind = rng.choice(["set", "set", "set", "retype", "delete", "swap", "key-to-end"])
+    if kind in ("set", "retype"):
+        if isinstance(v, bool):
+            new = (not v) if kind == "set" else str(v)
+        elif isinstance(v, int):
+            new = int(v) + rng.choice([1, -1, 10]) if kind == "set" else str(int(v))
+        elif isinstance(v, float):
+            new = float(v) + 1.0 if kind == "set" else int(v)
+        elif isinstance(v, str):
+            new = (str(v) + rng.choice(["x", " ", "'", "\\", "\n"])) if kind == "set" or not v.isdigit() else int(v)
+            if kind == "set" and rng.random() < 0.3 and v:
+                new = str(v)[:-1]
+        elif v is None:
+            new = "None" if kind == "retype" else ""
+        else:
+            return None
+        e = {"kind": "set", "path": list(path), "new": new}
+    elif kind == "delete":
+        cut = rng.randrange(1, len(path) + 1)
+        e = {"kind": "delete", "path": list(path[:cut])}
+    elif kind == "swap":
+        idx = [i for i, k in enumerate(path) if isinstance(k, int)]
+        if not idx:
+            return None
+        i = rng.choice(idx)
+        e = {"kind": "swap", "path": list(path[:i]) + [max(0, path[i] - 1)]}
+    else:
+        idx = [i for i, k in enumerate(path) if not isinstance(k, int)]
+        if not idx:
+            return None
+        i = rng.choice(idx)
+        e = {"kind": "key-to-end", "path": list(path[:i + 1])}
+    if list(e["path"][:2]) in (["vars", SIG], ["vars", EXCL]) or e["path"] == ["vars"]:
+        return None
+    if e["kind"] == "delete" and real_excluded(play, e["path"]) and not real_excluded(play, e["path"][:-1]):
+        return None          # deleting an element the exclusion list names: the request then fails, by design
+    return e, real_excluded(play, e["path"])
+
+
+def real_verify(label, text, index, edit):
+    """verify() of entry `index` of a really signed text, after `edit` (None = as signed), with the real GPG"""
+    plays = pv.load_playbook_yaml(text)
+    play = plays[index]
+    if edit is not None and not real_apply(play, edit):
+        return "edit-does-not-apply"
+    with RealGPGHome():
+        try:
+            r = pv.verify(play)
+            return "ok" if r is play else "returned-other-object"
+        except pv.PlaybookVerificationError as e:
+            return "verr"
+        except Exception as e:
+            return "crash:" + type(e).__name__
+
+
+def real_failure(label, edit, inside, ans):
+    if ans == "edit-does-not-apply":
+        return None
+    if edit is None:
+        return None if ans == "ok" else ("the play signed by Red Hat in %s is no longer accepted (%s): the digest of an unchanged play is not the one that was signed" % (label, ans))
+    if inside:
+        return None if ans == "ok" else ("an edit inside an excluded element of %s (%s at %s) ended as %s" % (label, edit["kind"], edit["path"], ans))
+    if ans == "ok":
+        return "a really signed play of %s was edited outside the excluded elements (%s at %s) and GPG still accepts the signature" % (label, edit["kind"], edit["path"])
+    return None
+
+
+def run_real(chk, quick):
+    import shutil
+    rng = chk.rng
+    if shutil.which("gpg") is None and shutil.which("gpg2") is None:
+        chk.count("real-gpg:no gpg binary, stream skipped")
+        return
+    n_edits = 9 if quick else 120
+    cases, impl, lines = [], [], []
+    for label, text in real_sources():
+        try:
+            plays = pv.load_playbook_yaml(text)
+            n = len(plays)
+        except Exception as e:
+            chk.failure("real signatures: %s does not load (%s)" % (label, type(e).__name__), {"op": "realgpg", "label": label, "index": 0, "edit": None})
+            continue
+        for i in range(n):
+            ans = real_verify(label, text, i, None)
+            chk.case(("real", label, i, None), ans == "ok")
+            chk.count("real-gpg:as-signed/%s" % ans)
+            f = real_failure(label, None, False, ans)
+            if f:
+                chk.failure("real signatures: " + f, {"op": "realgpg", "label": label, "index": i, "edit": None})
+            # the model on the really signed text, where the play is inside the model's value type
+            # (the signature is a !!binary, outside the value type, and excluded from the digest: a string stands in for it)
+            try:
+                twin = copy.deepcopy(plays[i])
+                if isinstance(twin["vars"][SIG], bytes) and real_excluded(twin, ("vars", SIG)):
+                    twin["vars"][SIG] = "SIGNATURE"
+                plain = from_ruamel(twin)
+            except Exception:
+                plain = None
+                chk.count("real-gpg:outside-the-model-types")
+            if plain is not None:
+                a0, d0, raw0 = impl_excl(plays[i])
+                a1, d1, raw = impl_excl(twin)
+                if a0 != a1:
+                    chk.failure("real signatures: the signature value of %s, an excluded element, is reflected in the digest" % label,
+                                {"op": "realgpg", "label": label, "index": i, "edit": {"kind": "set", "path": ["vars", SIG], "new": "SIGNATURE"}, "inside": True})
+                cases.append({"label": label, "index": i})
+                impl.append(a1)
+                lines.append("excl\t" + wire(plain))
+            for _ in range(n_edits):
+                made = real_edit(rng, plays[i])
+                if made is None:
+                    continue
+                edit, inside = made
+                ans = real_verify(label, text, i, edit)
+                chk.case(("real", label, i, json.dumps(edit, sort_keys=True, default=str)), ans == "verr" and not inside)
+                chk.count("real-gpg:%s%s/%s" % (edit["kind"], "-inside-excluded" if inside else "", ans))
+                f = real_failure(label, edit, inside, ans)
+                if f:
+                    chk.failure("real signatures: " + f, {"op": "realgpg", "label": label, "index": i, "edit": edit, "inside": inside})
+    out = run_driver("C18", lines) if lines else []
+    chk.compare("real signatures: the text Red Hat signed (repo's example playbooks, shipped revocation list) = the model's serialisation of the cleaned play",
+                cases, impl, out)
+
+
+def replay_real(c):
+    texts = dict(real_sources())
+    if c["label"] not in texts:
+        print("source %s not found" % c["label"])
+        return False
+    ans = real_verify(c["label"], texts[c["label"]], c["index"], c.get("edit"))
+    f = real_failure(c["label"], c.get("edit"), c.get("inside", False), ans)
+    print("%s entry %d, edit %s -> %s" % (c["label"], c["index"], json.dumps(c.get("edit"), default=str), ans))
+    if f:
+        print("  " + f)
+    return f is not None
+
+
+def replay_round10(c):
+    op = c.get("op")
+    if op == "realgpg":
+        return replay_real(c)
+    if op == "glue":
+        GlueGPG.real_key = pv.PUBLIC_KEY_PATH
+        ans, mline, fails = glue_eval(c)
+        print("%s of a %s play, key file %s, import count %s, status text %r, revocation document %s -> %s" % (
+            c["entry"], c["what"], c["key"], c["count"], c["status"], c["doc_mode"], ans[:40]))
+        for f in fails:
+            print("  " + f)
+        return bool(fails)
+    if op == "kinds":
+        p = from_json(c["play"])
+        res = kinds_eval(p)
+        for k in KINDS:
+            print("  %-15s exclusion+digest %s; verify_play %s" % (k, res[k][0][:50], res[k][1][:30]))
+        fails = kinds_failures(p, res)
+        for f in fails:
+            print("  " + f)
+        return bool(fails)
+    if op == "scalar-float":
+        ident = ("f", "nan" if c["value"] == "'nan'" else float(c["value"]))
+        prob = float_token_problem(c["spelling"], ident)
+        print("float %s: %s" % (c["spelling"], prob or "printed as a token that reads back as the same float"))
+        return prob is not None
+    if op == "scalar-pair":
+        prob = scalar_pair_check(c["a"], c["ida"], c["b"], c["idb"], c["place"])
+        print(prob or "the two spellings have different signed texts")
+        return prob is not None
+    if op == "scalar-one":
+        o = scalar_outcome(scalar_text(c["spelling"], c["place"]))
+        print("outcome: %s" % o[0])
+        return o[0] not in ("ok", "load-verr", "verr")
+    if op == "main2":
+        ans, fails = main2_eval(c)
+        print("document shape %s, SKIP_VERIFY=%r -> %s" % (c["shape"], c["skip"], ans.replace("\t", " / ")))
+        for f in fails:
+            print("  " + f)
+        return bool(fails)
+    return None
+
+
 class Pool(object):
     """every play explored: digest <-> core must be a bijection"""
 
@@ -2285,12 +3197,18 @@ def run(chk):
                 "'?', U+FFFD and valid characters; "
                 "plus multi-entry documents (good, edited, unsigned, without vars, without hosts, revoked, not a mapping) through the "
                 "command-line entry point, and histories of 2-4 loads with %YAML directives against a fresh process per load; "
+                "plus (round 10) verify / verify_play with a GPG stand-in whose key file, import count and verdict object are parameters "
+                "(genuine, tampered, wrongly signed, revoked, empty, non-base64 plays; revocation documents good / unloadable / not a list / empty); "
+                "the same play as dict / OrderedDict / subclasses / the loader's scalar classes; a table of YAML scalar spellings (integers, booleans, "
+                "nulls, strings inside the model; floats, dates, timestamps, binaries, sets, ordered maps outside it) at five places of a play; the "
+                "command-line entry point with SKIP_VERIFY unset / empty / set on empty, unloadable and not-a-list-of-plays documents; "
                 "non-trivial = distinct canonical play whose exclusion succeeds (a digest exists)")
     chk.assumptions = [
         "SHA-256 is treated as injective (the theorems are about the serialised text; the harness compares hash_play with hashlib on the model's text)",
         "GPG is replaced by a stand-in that accepts exactly the signature made for the digest it is shown (and the shipped revocation list's real signature for that list's digest); whether base64.b64decode accepts a signature string is taken from the standard library",
         "YAML loading (ruamel) is outside the model: plays enter as CommentedMap/CommentedSeq objects (built directly or loaded from rendered text)",
-        "floats, timestamps and binaries are outside the quantifier",
+        "floats, timestamps, binaries and sets are outside the quantifier and the Lean value type; the harness searches them for two different values with one signed text",
+        "the gpg binary and contrib/gnupg.py run only on the five really signed plays of the real-signature stream; elsewhere GPG is a stand-in whose key import count and verdict object are parameters",
         "YAML merge keys are expanded by load_playbook_yaml before the modelled functions see the play: the serialisation model has no merge notion; "
         "the expansion is tied by the text stream (edited texts against an independent merge-expanding reading) and by corpus/C18/merge_keys.json "
         "(each merge text must verify to the digest of the explicitly written play)",
@@ -2561,6 +3479,13 @@ def _run(chk, ref):
     run_main_stream(chk, quick)
     run_load_histories(chk, ref, quick)
 
+    # ---------------- round 10: GPG glue as parameters, object kinds, scalar kinds, the entry point as a whole
+    run_glue(chk, quick)
+    run_kinds(chk, quick)
+    run_scalars(chk, quick)
+    run_main2(chk, quick)
+    run_real(chk, quick)
+
     # ---------------- regression witnesses of the repaired defect 5a7421c (non-string list, non-mapping vars)
     for c in corpus:
         if c.get("op") == "vplay":
@@ -2586,6 +3511,10 @@ class _Collect(object):
 def replay(data):
     c = data["case"]
     op = c.get("op")
+    r10 = replay_round10(c)
+    if r10 is not None:
+        print("property violated on this input" if r10 else "property holds on this input")
+        return 1 if r10 else 0
     if op == "text-edit":
         col = _Collect()
         o0, o1 = text_outcome(c["text0"]), text_outcome(c["text1"])
@@ -2646,6 +3575,16 @@ def replay(data):
             res = run_history(col, h, ref, c["doc"])
             for x, r in zip(h["calls"], res):
                 print("  %s %s -> %s; GPG shown %s" % (x["entry"], x["what"], r["verdict"][:24], [d[:12] for d in r["seen"]] or "nothing"))
+            for x, r in zip(h["calls"], res):
+                # the per-call clause of the history stream: GPG must have been shown THIS play's digest
+                q = x["play"]
+                sg = q.get("vars", {}).get(SIG) if isinstance(q, dict) and isinstance(q.get("vars"), dict) else None
+                dq = impl_excl(to_ruamel(q))[1] if isinstance(q, dict) else None
+                if dq is not None and not signature_missing(q) and bad_sigs(q) == "-" and isinstance(sg, str) \
+                        and r["verdict"] not in ("crash",) and not (x["entry"] == "verify" and len(r["seen"]) == 0) \
+                        and binascii.hexlify(dq).decode() not in r["seen"]:
+                    col.failures.append("%s %s: GPG was never shown the digest of this play (shown: %s)" % (
+                        x["entry"], x["what"], [d[:12] for d in r["seen"]] or "nothing"))
             for f in col.failures:
                 print("  " + f)
             bad = bool(col.failures)
